@@ -62,6 +62,10 @@ def _polycase(draw, sphero):
          "rect": [draw(f(-1, 1)), draw(f(-1, 1))], "angles": draw(_angles()), "perm": draw(noise(30))}
     if sphero:
         c["logr"] = None if draw(st.integers(0, 7)) == 0 else draw(f(-2, 1))
+    # how the figure is handed over: vertex order (clockwise lists are legal, the classes sort) and the optional normal
+    # argument (a -z or non-unit normal still describes a figure lying in the xy-plane)
+    c["cw"] = draw(st.booleans())
+    c["normal"] = draw(st.sampled_from(["none", "none", "plus", "minus", "minus_scaled", "plus_scaled"]))
     return c
 
 
@@ -182,16 +186,20 @@ def _polygon(case, rec, sphero):
     sig = {"cls": "ConvexSpheropolygon" if sphero else "ConvexPolygon", "core": "irregular" if irregular else "regular"}
     from checks.common import perm_from_noise
 
-    Vin = xy[perm_from_noise(case["perm"], len(xy))] if not sphero else xy
+    Vin = xy[perm_from_noise(case["perm"], len(xy))] if not sphero else (xy[::-1].copy() if case.get("cw") else xy)
+    nrm = {"none": None, "plus": [0.0, 0.0, 1.0], "minus": [0.0, 0.0, -1.0], "minus_scaled": [0.0, 0.0, -2.5],
+           "plus_scaled": [0.0, 0.0, 0.25]}[case.get("normal", "none")]
+    kw = {} if nrm is None else {"normal": nrm}
+    sig["normal"] = case.get("normal", "none")
     if sphero:
         r = 0.0 if case["logr"] is None else float(10.0 ** case["logr"] * size)
-        shape = call(S.ConvexSpheropolygon, Vin.copy(), r)
+        shape = call(S.ConvexSpheropolygon, Vin.copy(), r, **kw)
         want = ray_spheropolygon(xy, c, r, th) if r > 0 else ray_polygon(xy, c, th)
         size_t = size + r
         sig["r"] = "0" if r == 0 else "pos"
         rec.concrete = {"vertices": xy, "radius": r, "theta": th[:5]}
     else:
-        shape = call(S.ConvexPolygon, Vin.copy())
+        shape = call(S.ConvexPolygon, Vin.copy(), **kw)
         want = ray_polygon(xy, c, th)
         size_t = size
         rec.concrete = {"vertices": Vin, "theta": th[:5]}
@@ -200,7 +208,8 @@ def _polygon(case, rec, sphero):
         return
     rec.label(sig["cls"], "irregular" if irregular else "regular", "axis_aligned_edges" if axis_aligned else None, "rot:" + case["rot"],
               "kind:" + case["kind"], "angles:" + case["angles"]["container"], "scaled" if case["logs"] else None,
-              ("r=0" if sig.get("r") == "0" else "r>0") if sphero else None)
+              ("r=0" if sig.get("r") == "0" else "r>0") if sphero else None, "normal:" + sig["normal"],
+              "listed_cw" if sphero and case.get("cw") else None)
     rec.nontrivial = irregular or axis_aligned or special > 0 or bool(np.any((th < 0) | (th >= 2 * math.pi)))
     _finish(rec, shape, arg, th, want, size_t, sig, special)
 
